@@ -413,3 +413,28 @@ package otp
 //@   ensures r <==> isdig(c)
 //@ func otp.isSessionToken(tok) (r)
 //@   ensures r <==> sessiontok(tok)
+
+// ---------------------------------------------------------------------------
+// provisioning URLs. qget(rawquery, key) is (*URL).Query().Get(key); url.URL.Path holds the
+// label in decoded form (net/url documents Path as the unescaped path; String() escapes it).
+
+//@ macro urllabel(u) = hasprefix(u.Path, "/") ? u.Path[1:] : u.Path
+//@ func otp.ParseOTPAuthURL(u) (param, err)
+//@   let label = urllabel(u)
+//@   let dg = qget(u.RawQuery, "digits")
+//@   let pd = qget(u.RawQuery, "period")
+//@   let al = qget(u.RawQuery, "algorithm")
+//@   ensures[nil] u == nil ==> err != nil && param == nil
+//@   ensures[verdict] (err == nil && param != nil) || (err != nil && param == nil)
+//@   ensures[type] u != nil && err == nil ==> u.Scheme == "otpauth" && (lower(u.Host) == "totp" || lower(u.Host) == "hotp")
+//@   ensures[label] u != nil && err == nil ==> nparts(label, ":") >= 2 && param.Issuer == part(label, ":", 0) && param.AccountName == partrest(label, ":", 1)
+//@   ensures[secret] u != nil && err == nil ==> param.Secret == qget(u.RawQuery, "secret")
+//@   ensures[digits] u != nil && err == nil ==> (dg == "" ==> param.Digits == 6) && (dg != "" ==> isint(dg) && param.Digits == intval(dg))
+//@   ensures[period] u != nil && err == nil ==> (pd == "" ==> param.Period == 30) && (pd != "" ==> isint(pd) && param.Period == intval(pd))
+//@   ensures[algorithm] u != nil && err == nil ==> (al == "" ==> param.Algorithm == 0) && (al != "" ==> hashname(al) && param.Algorithm == hashof(al))
+
+//@ func otp.generateOTPURL(kind, param, extraParams) (r, err)
+//@   ensures[iff] err == nil <==> param.Issuer != "" && param.AccountName != "" && param.Secret != ""
+//@   ensures[verdict] (err == nil && r != nil) || (err != nil && r == nil)
+//@   ensures[fields] err == nil ==> r.Scheme == "otpauth" && r.Host == kind && r.Path == cat("/", param.Issuer, ":", param.AccountName)
+//@   ensures[fresh] err == nil ==> fresh(r)
